@@ -117,6 +117,7 @@ def preamble_leg(res, tier, prop):
                 feats = cli_features({"len": len(ent["data"]), "first_head_line_end": first_end}, b, None)
                 del feats["symptom"]
                 feats.update({"input": "preamble", "filler": ent["filler"], "filler_len_ge_128": ent["n"] >= 128,
+                              "first_head_line_inside_default_block0": first_end <= min(65536, len(ent["data"])),
                               "filler_len_64_to_127": 64 <= ent["n"] < 128, "blocksz_lt_128": b < 128, "newline_after_filler": ent["newline_after"]})
                 rep = {"engine": "E-CLI", "args": ["--color", "never", "-t", "+00:00", "--blocksz", str(b), ent["name"]], "files": {ent["name"]: common.b64(ent["data"])}}
                 if r.timed_out or r.rc not in (0, 1):
